@@ -445,14 +445,22 @@ class Controller:
     with self.lock:
       self.suggest_calls += 1
       if self.plan:
-        return dict(self.plan.popleft())
+        e = dict(self.plan.popleft())
+        if int(e.get('repeat', 1)) > 1:
+          # a persistent fault: the next policy.suggest() calls (e.g. retries inside one
+          # request) meet it again
+          self.plan.appendleft(dict(e, repeat=int(e['repeat']) - 1))
+        return e
       return dict(self.default)
 
   def next_es_entry(self):
     with self.lock:
       self.early_stop_calls += 1
       if self.es_plan:
-        return dict(self.es_plan.popleft())
+        e = dict(self.es_plan.popleft())
+        if int(e.get('repeat', 1)) > 1:
+          self.es_plan.appendleft(dict(e, repeat=int(e['repeat']) - 1))
+        return e
       return {}
 
 
@@ -468,6 +476,12 @@ class _StubRpcError(grpc.RpcError):
 
 
 EXC_TYPES['RpcError'] = _StubRpcError
+# the error classes the Pythia interface itself documents for policies
+from vizier._src.pythia import pythia_errors as _pe  # pylint: disable=g-import-not-at-top
+for _n in ('TemporaryPythiaError', 'InactivateStudyError', 'PythiaFallbackError', 'LoadTooLargeError',
+           'CancelComputeError', 'PythiaProtocolError', 'VizierDatabaseError'):
+  if hasattr(_pe, _n):
+    EXC_TYPES[_n] = getattr(_pe, _n)
 
 # Shapes of the text an algorithm's exception may carry (exception texts are
 # arbitrary: empty for a bare `assert` / `NotImplementedError()`, kilobytes of
@@ -572,6 +586,8 @@ class HarnessPolicyFactory(pythia.PolicyFactory):
     study_algo = getattr(problem_statement, 'algorithm', None)
     if (algorithm == STUB or study_algo == STUB) and self._c.factory_faults:
       f = self._c.factory_faults.popleft()
+      if int(f.get('repeat', 1)) > 1:
+        self._c.factory_faults.appendleft(dict(f, repeat=int(f['repeat']) - 1))
       self._c.factory_fault_log.append(f)
       # the algorithm cannot even be built: the exception keeps its own type
       # (PythiaServicer only wraps what policy.suggest() raises)
